@@ -183,20 +183,32 @@ func (e *env) bridgeCallFailures(r *rec, thorough bool) {
 		plain bool
 		// holds: the target already holds coins of the delivered denominations before the call
 		holds bool
+		// sendCallTo: the claim's memo is the "send call to" flag - the tokens are delivered to the (mapped) sender address
+		// and the target is called by that address with the raw call data
+		sendCallTo bool
 	}
 	vs := []variant{
-		{"contract-ok(control)", []scen.Token{e.usdt}, "ok", -1, false, false, false, false},
-		{"revert-before-writes", []scen.Token{e.usdt}, "revert-before-writes", -1, false, false, false, false},
-		{"revert-after-writes", []scen.Token{e.usdt}, "revert-after-writes", -1, false, false, false, false},
-		{"revert-after-writes/2-tokens", []scen.Token{e.usdt, e.fx}, "revert-after-writes", -1, false, false, false, false},
-		{"token-1-of-2-disabled", []scen.Token{e.usdt, e.fx}, "ok", 0, false, false, false, false},
-		{"token-1-of-1-disabled", []scen.Token{e.usdt}, "ok", 0, false, false, false, false},
-		{"gas-exhaustion-at-every-threshold", []scen.Token{e.usdt}, "ok", -1, true, false, false, false},
+		{"contract-ok(control)", []scen.Token{e.usdt}, "ok", -1, false, false, false, false, false},
+		{"revert-before-writes", []scen.Token{e.usdt}, "revert-before-writes", -1, false, false, false, false, false},
+		{"revert-after-writes", []scen.Token{e.usdt}, "revert-after-writes", -1, false, false, false, false, false},
+		{"revert-after-writes/2-tokens", []scen.Token{e.usdt, e.fx}, "revert-after-writes", -1, false, false, false, false, false},
+		{"token-1-of-2-disabled", []scen.Token{e.usdt, e.fx}, "ok", 0, false, false, false, false, false},
+		{"token-1-of-1-disabled", []scen.Token{e.usdt}, "ok", 0, false, false, false, false, false},
+		{"gas-exhaustion-at-every-threshold", []scen.Token{e.usdt}, "ok", -1, true, false, false, false, false},
 	}
 	for _, v := range vs[:6] {
 		v.name += "/refund-to-third-party"
 		v.refundOther = true
 		vs = append(vs, v)
+	}
+	for _, mode := range []string{"revert-before-writes", "revert-after-writes"} {
+		for _, other := range []bool{false, true} {
+			v := variant{name: "send-call-to/" + mode, tokens: []scen.Token{e.usdt, e.fx}, mode: mode, disable: -1, sendCallTo: true, refundOther: other}
+			if other {
+				v.name += "/refund-to-third-party"
+			}
+			vs = append(vs, v)
+		}
 	}
 	// deliveries to a plain account that fail at the k-th token (k = 1, 2; both token orders), the account holding / not
 	// holding coins of those denominations already, refund to itself / to a third party
@@ -222,8 +234,8 @@ func (e *env) bridgeCallFailures(r *rec, thorough bool) {
 	}
 	if thorough {
 		// the gas sweep also with two tokens and with a third-party refund address
-		vs = append(vs, variant{"gas-exhaustion-at-every-threshold/2-tokens", []scen.Token{e.usdt, e.fx}, "ok", -1, true, false, false, false},
-			variant{"gas-exhaustion-at-every-threshold/refund-to-third-party", []scen.Token{e.usdt}, "ok", -1, true, true, false, false})
+		vs = append(vs, variant{"gas-exhaustion-at-every-threshold/2-tokens", []scen.Token{e.usdt, e.fx}, "ok", -1, true, false, false, false, false},
+			variant{"gas-exhaustion-at-every-threshold/refund-to-third-party", []scen.Token{e.usdt}, "ok", -1, true, true, false, false, false})
 	}
 	for _, v := range vs {
 		base := world.Branch(e.ctx)
@@ -241,12 +253,19 @@ func (e *env) bridgeCallFailures(r *rec, thorough bool) {
 			toks = append(toks, t.Ext["eth"])
 			amts = append(amts, sdkmath.NewInt(5))
 		}
+		target := callee // the contract that is called
+		memo := ""
+		if v.sendCallTo {
+			// the tokens go to the sender's address; from here on "callee" is the account whose holdings are watched
+			callee = common.HexToAddress(scen.ExtAddr("eth", "depositor"))
+			memo = hex.EncodeToString(cctypes.MemoSendCallTo.Bytes())
+		}
 		refund := callee
 		if v.refundOther {
 			refund = w.A("u1").Hex()
 		}
 		claim := &cctypes.MsgBridgeCallClaim{ChainName: "eth", EventNonce: n, BlockHeight: 1001, Sender: scen.ExtAddr("eth", "depositor"), Refund: refund.String(),
-			TokenContracts: toks, Amounts: amts, To: callee.String(), Data: "", Value: sdkmath.ZeroInt(), Memo: "", TxOrigin: scen.ExtAddr("eth", "origin")}
+			TokenContracts: toks, Amounts: amts, To: target.String(), Data: "", Value: sdkmath.ZeroInt(), Memo: memo, TxOrigin: scen.ExtAddr("eth", "origin")}
 		if vr := scen.Vote(w, base, "eth", e.os[0], claim); !vr.OK() {
 			r.viol("C18/harness/bridge-call-claim-rejected/"+v.name, "harness", vr.String(), v.name)
 			continue
@@ -271,7 +290,7 @@ func (e *env) bridgeCallFailures(r *rec, thorough bool) {
 			pctx := world.Branch(base)
 			if er := exec(pctx); er.Success() {
 				// after a successful execution the callee holds the tokens; trace a second identical callback to learn its gas profile
-				msg := &core.Message{From: k.GetCallbackFrom(), To: &callee, Nonce: w.App.EvmKeeper.GetNonce(pctx, k.GetCallbackFrom()), Value: big.NewInt(0), GasLimit: 3_000_000, GasPrice: big.NewInt(0), GasFeeCap: big.NewInt(0), GasTipCap: big.NewInt(0)}
+				msg := &core.Message{From: k.GetCallbackFrom(), To: &target, Nonce: w.App.EvmKeeper.GetNonce(pctx, k.GetCallbackFrom()), Value: big.NewInt(0), GasLimit: 3_000_000, GasPrice: big.NewInt(0), GasFeeCap: big.NewInt(0), GasTipCap: big.NewInt(0)}
 				if tres, err := w.App.EvmKeeper.ApplyMessage(pctx, msg, tr, false); err == nil {
 					seen := map[int64]bool{}
 					for _, l := range tr.StructLogs() {
@@ -317,7 +336,7 @@ func (e *env) bridgeCallFailures(r *rec, thorough bool) {
 			}
 			_, stillPending := k.GetPendingExecuteClaim(ctx, n)
 			calls := scen.LastBridgeCallID(w, ctx, "eth")
-			marker := w.Slot(ctx, callee, 1).Big().Uint64()
+			marker := w.Slot(ctx, target, 1).Big().Uint64()
 			class := "executed"
 			switch {
 			case !er.Success():
@@ -525,7 +544,7 @@ func init() {
 	registry.Register(&registry.Check{
 		ID:          "C18",
 		Level:       "fault_enumeration",
-		Rule:        "tolerated-failure boundaries x failure points: (a) observed events whose handler fails (duplicate bridge token, FX decimals mismatch, unknown oracle set) - only the attestation, last-observed and per-oracle nonce keys may change; (b) inbound bridge call to a contract that reverts before / after its writes, with 1 or 2 tokens, with the k-th token pair disabled (also delivered to a plain account, k = 1, 2, both token orders, the account holding / not holding such coins, refund to itself / a third party), and with the nested call cut at every gas threshold of the callee's trace (block max gas varied) - either the claim execution fails as a whole and nothing changes, or the refund record holds exactly the claim's tokens and no contract write, token move or account change of the failed call survives; (c) passed proposals with message shapes G, F, GF, GGF, GFG, P, GP (G good, F failing, P panicking) - proposal marked failed, deposits refunded, no effect of earlier messages. IBC packet failures are enumerated in C19. distinct_nontrivial = distinct (boundary, variant, outcome) classes",
+		Rule:        "tolerated-failure boundaries x failure points: (a) observed events whose handler fails (duplicate bridge token, FX decimals mismatch, unknown oracle set) - only the attestation, last-observed and per-oracle nonce keys may change; (b) inbound bridge call to a contract that reverts before / after its writes, with 1 or 2 tokens, with the k-th token pair disabled (also with the send-call-to memo flag, where the tokens go to the sender's address; also delivered to a plain account, k = 1, 2, both token orders, the account holding / not holding such coins, refund to itself / a third party), and with the nested call cut at every gas threshold of the callee's trace (block max gas varied) - either the claim execution fails as a whole and nothing changes, or the refund record holds exactly the claim's tokens and no contract write, token move or account change of the failed call survives; (c) passed proposals with message shapes G, F, GF, GGF, GFG, P, GP (G good, F failing, P panicking) - proposal marked failed, deposits refunded, no effect of earlier messages. IBC packet failures are enumerated in C19. distinct_nontrivial = distinct (boundary, variant, outcome) classes",
 		Assumptions: []string{"the callee is a hand-assembled contract (marker write, ERC-20 transfer, marker write, optional revert)", "CallEVM takes its gas limit from the block max gas, which is therefore the varied quantity"},
 		Jobs: func(tier string) []registry.Job {
 			return []registry.Job{{Name: "boundaries-x-failure-points", Custom: run(tier == "thorough"), Shards: 1}}
